@@ -84,20 +84,57 @@ class Prop:
         return []
 
 
+class CaseTimeout(BaseException):
+    pass
+
+
+def _alarm(signum, frame):
+    raise CaseTimeout("case exceeded its time limit")
+
+
+class _Limit:
+    """Per-case wall-clock limit (SIGALRM, re-armed every 2 s in case the exception is swallowed)."""
+
+    def __init__(self, prop):
+        self.limit = float(getattr(prop, "CASE_TIMEOUT", 30))
+
+    def __enter__(self):
+        import signal
+        try:
+            signal.signal(signal.SIGALRM, _alarm)
+            signal.setitimer(signal.ITIMER_REAL, self.limit, 2.0)
+        except ValueError:
+            pass
+
+    def __exit__(self, *a):
+        import signal
+        try:
+            signal.setitimer(signal.ITIMER_REAL, 0)
+        except ValueError:
+            pass
+        return False
+
+
 def _safe_impl(prop: Prop, case):
     try:
-        return prop.impl(case)
+        with _Limit(prop):
+            return prop.impl(case)
     except (ImportError, SyntaxError, MemoryError):
         raise
+    except CaseTimeout:
+        return {"raised": "CaseTimeout", "msg": "the real code did not finish within the per-case time limit"}
     except BaseException as e:  # the real code raised: that is an observable outcome
         return {"raised": type(e).__name__, "msg": str(e)[:300]}
 
 
 def _safe_oracle(prop: Prop, case, impl_out):
     try:
-        return prop.oracle(case, impl_out) or []
+        with _Limit(prop):
+            return prop.oracle(case, impl_out) or []
     except (ImportError, SyntaxError, MemoryError):
         raise
+    except CaseTimeout:
+        return [{"what": "the property oracle (which runs the real code) exceeded the per-case time limit", "finding": None}]
     except BaseException as e:
         return [{"what": f"oracle raised {type(e).__name__}: {str(e)[:300]}", "finding": None,
                  "trace": traceback.format_exc()[-1500:]}]
@@ -187,16 +224,17 @@ def write_replay(prop_id, kind, case, extra):
     return os.path.relpath(path, VERIF)
 
 
-def shrink_case(prop: Prop, case, still_fails, budget=200):
-    """Greedy shrinking: accept the first candidate that still fails, repeat."""
+def shrink_case(prop: Prop, case, still_fails, budget=200, seconds=20.0):
+    """Greedy shrinking: accept the first candidate that still fails, repeat (bounded in steps and time)."""
     cur = case
     steps = 0
     progress = True
-    while progress and steps < budget:
+    t_end = time.time() + seconds
+    while progress and steps < budget and time.time() < t_end:
         progress = False
         for cand in prop.shrink(cur):
             steps += 1
-            if steps >= budget:
+            if steps >= budget or time.time() > t_end:
                 break
             try:
                 if still_fails(cand):
@@ -347,7 +385,7 @@ def run_check(prop: Prop, tier: str, seed: int, replay: str | None = None) -> in
             "seed": seed, "tier": tier, "case_index": idx, "observed": io2,
             "violation": [x for x in orc2 if x.get("finding") not in open_ids] or [v], "original_case": c if small != c else None})
         violations.append(("impl-violation", path))
-        if len(violations) >= 5:
+        if len(violations) >= 3:
             break
 
     if not violations and (disagreements or proof_problems):
